@@ -270,9 +270,18 @@ def run_schedule(case):
         for _ in range(case.get("completion_rounds", 400)):
             if all(w.finished for w in h.workers.values()):
                 break
+            moved = False
             for tid in ids:
-                grant(tid)
-                effective.append(tid)
+                # only the picks that move are recorded (blocked picks are no-ops on both
+                # sides and are exercised by the generated part of the schedule)
+                if grant(tid):
+                    effective.append(tid)
+                    moved = True
+            if not moved:
+                # nobody can move although somebody is unfinished: record one full round of
+                # blocked picks, so that the model has to be stuck in the same way
+                effective += ids
+                break
     except RuntimeError as e:
         h.error = str(e)
     unfinished = [w.tid for w in h.workers.values() if not w.finished]
